@@ -65,6 +65,7 @@ type Contract struct {
 	NoSafety  bool
 	Effect    string   // "", "nonblocking", "bounded": blocking-effect class (C05)
 	EffectInferred bool // Effect was proposed by inferEffects (and is checked by the function's own verification)
+	Stale     string // non-empty: the header does not match the function's signature
 	AlsoKeep  []string // keep-list of a conjoined `allbut` contract when the merged frame is an explicit target list
 	Consumes  []string // ghost tokens given away by the call/send/spawn: checked == 1, then set to 0
 	Produces  []string // chanfield: ghost tokens obtained by the receiver: set to 1 // implicit panics are assumed away, not checked, under this contract
